@@ -608,6 +608,7 @@ fn run_selfd(args: &Args, programs: &[Program], stats: &mut Stats) -> Result<(),
 }
 
 pub fn main(args: &Args) {
+    set_log_level(LogLevel::Fatal);
     let mode = args.get_or("mode", "ipc");
     let programs = load_programs(args);
     let mut stats = Stats::default();
